@@ -142,6 +142,19 @@ CHECKS = {
         BASE_NOTE + 'Garbage-collection driven registry edits are runtime behaviour; serving-side binding is exercised under C16.',
         'DESIGN.md section 5 C04',
     ),
+    'C12': (
+        'Rocq proof of the fold wiring for any fold count over the operator denotation + differential execution of the real evaluation and stacking graphs',
+        'Theorems (Properties/C12.v) for every pipeline, every number of folds and any (symbolic) splitter: every fold contributes '
+        'exactly one scored pair, in order, pairing the true outcomes of its held-out part with the prediction of an instance '
+        'trained only on its training part; features and labels are split by one fitted splitter state and all parts are '
+        'distinct splitter outputs; stacked train features are per base model the fold-ordered held-out predictions, stacked '
+        'labels the held-out label parts in the same order, and in apply mode all fold instances of each base are combined on the '
+        'same input. The real TrainTestScore/CrossVal/HoldOut/Function.score and FullStack graphs (with scopes inside the '
+        'ensemble composition) are compiled, executed and compared with the model. The model is over the decorated-operator '
+        'denotation of C03; the graph-building code itself is tied by execution.',
+        BASE_NOTE + 'Default pandas splitters/stackers/reducers are not exercised.',
+        'DESIGN.md section 5 C12',
+    ),
 }
 NOT_YET = 'model and theorems not built yet in this round (planned, see DESIGN.md section 5/9)'
 
